@@ -46,7 +46,7 @@ func init() {
 
 func genC09(seed int64, tier string, emit func(run.Case)) {
 	r := gen.New(seed)
-	n := tierN(tier, 9000, 300000)
+	n := tierN(tier, 9000, 200000)
 	id := 0
 	add := func(s, src string) {
 		id++
